@@ -6,6 +6,7 @@ mod diskfault;
 mod engines;
 mod fdcap;
 mod modelfault;
+mod optvar;
 mod orch;
 mod panics;
 mod report;
